@@ -77,6 +77,11 @@ def cases(tier, seed, shard, nshards):
         k += 1
         if k % nshards == shard:
             yield {"k": "term-builders", "label": lab}
+    for d in DIALECT_CLASSES:
+        for lab in DELEGATED:
+            k += 1
+            if k % nshards == shard:
+                yield {"k": "delegated", "d": d, "label": lab}
     for di, d in enumerate(DIALECT_CLASSES):
         for hi, how in enumerate(NAMED_CONSUMERS):
             for ai, a in enumerate(NAMED_SOURCES):
@@ -453,6 +458,52 @@ def run_named(case, mon):
     mon.nontrivial(["named", case["d"], case["how"], case["a"], case["b"]])
 
 
+DELEGATED = {
+    # NOT wrapper around ...: calls that Not does not define itself and hands on to the wrapped term (re-wrapping the result)
+    "not-field": (lambda reg, t: reg["Not"](t.field("data")), [("has_key", ("k",)), ("get_text_value", ("k2",)), ("contains", ({"a": 1},)), ("has_keys", (["x", "y"],))]),
+    "not-case": (lambda reg, t: reg["Not"](reg["Case"]().when(t.a > 1, 1)), [("when", (None, 2)), ("else_", (0,))]),
+    "not-aggregate": (lambda reg, t: reg["Not"](reg["AggregateFunction"]("AGG", t.a)), [("filter", ("CRIT",)), ("distinct", ())]),
+    "not-analytic": (lambda reg, t: reg["Not"](reg["an.Sum"](t.a)), [("over", ("FIELD",)), ("orderby", ("FIELD",)), ("rows", ("PRECEDING",))]),
+    "negated-field": (lambda reg, t: t.field("data").negate(), [("has_key", ("k",)), ("get_path_text_value", ("{a,b}",))]),
+}
+
+
+def run_delegated(case, mon):
+    """Calls reached through a delegating wrapper: each returns a new object, the wrapper and earlier results stay as they were."""
+    from ..prog import registry
+    reg = registry()
+    t = reg["Table"]("tz")
+    mk, calls = DELEGATED[case["label"]]
+    w = mk(reg, t)
+    q = reg[case["d"]].from_(t).select(t.a).where(w) if isinstance(w, reg["Criterion"]) else None
+    f0, fq0 = F(w), (F(q) if q is not None else None)
+    earlier = []
+    for name, args in calls:
+        args = tuple({"CRIT": t.b > 2, "FIELD": t.c, "PRECEDING": reg["an.Preceding"](2)}.get(a_, a_) if isinstance(a_, str) else a_ for a_ in args)
+        if name == "when":
+            args = (t.b < 0, 2)
+        try:
+            x = getattr(w, name)(*args)
+        except Exception:
+            mon.count("delegated_calls_rejected")
+            continue
+        mon.count("delegated_calls")
+        mon.add("delegated_cells", "%s.%s" % (case["label"], name))
+        if x is w:
+            mon.violation("delegated:%s:returns-wrapper" % name, "%s on %s returned the wrapper itself" % (name, case["label"]))
+            return
+        if F(w) != f0 or (q is not None and F(q) != fq0):
+            mon.violation("delegated:%s:wrapper-changed" % name, "%s(%r) on %s changed the wrapper (or the statement built with it) in %s" % (
+                name, args, case["label"], fdiff(F(w), f0)[:3]))
+            return
+        for (n2, x2, fx2) in earlier:
+            if hasattr(x2, "get_sql") and F(x2) != fx2:
+                mon.violation("delegated:%s:earlier-result" % name, "%s on %s changed the result of the earlier %s call" % (name, case["label"], n2))
+                return
+        earlier.append((name, x, F(x) if hasattr(x, "get_sql") else None))
+    mon.nontrivial(["delegated", case["label"], case["d"]])
+
+
 def run_pair(case, mon):
     prog, want = pair_program(case["d"], *case["spec"], chain=case["chain"])
     case["prog"] = prog
@@ -529,6 +580,8 @@ def run_case(case, mon):
         return run_pair(case, mon)
     if case["k"] == "named":
         return run_named(case, mon)
+    if case["k"] == "delegated":
+        return run_delegated(case, mon)
     prog = case["prog"]
     fs = check_history(prog, mon)
     if fs is None:
